@@ -38,6 +38,7 @@ func runC15(c *core.Ctx, r *core.Reporter) {
 	c15escape(c, r)
 	c15params(c, r)
 	c15via(c, r)
+	c15cursor(c, r)
 }
 
 // c15force: a printing function that forces a printer control (princ and ~A force escape off, prin1 and ~S force
@@ -411,6 +412,30 @@ func c15args(c *core.Ctx, r *core.Reporter) { c15argsAs(c, r, "C15.args") }
 func c15argsAs(c *core.Ctx, r *core.Reporter, rule string) {
 	r.Rule(rule, "every read c.args[c.argPos] in the format engine is reached only through a branch that compares the cursor with the length of the argument list (cursor < len) on every path; 0 <= cursor alone does not protect against a missing argument", 12)
 	an := lenflow.New(c)
+	// methods of control that return only when the cursor is below the length (needArg): every path to a
+	// return crosses a cursor < len edge
+	ensures := map[*ssa.Function]bool{}
+	for _, fn := range c.ModuleFuncs() {
+		if fn.Blocks == nil || fn.Signature.Recv() == nil || !core.IsNamed(fn.Signature.Recv().Type(), core.SlipPath+"/pkg/cl", "control") || len(fn.Params) != 1 {
+			continue
+		}
+		all, any := true, false
+		for _, b := range fn.Blocks {
+			if _, isRet := b.Instrs[len(b.Instrs)-1].(*ssa.Return); !isRet {
+				continue
+			}
+			any = true
+			if !core.Separates(fn, b, an.NoReturn, func(ifi *ssa.If, branch bool) bool {
+				return upperGuard(core.EdgeFact{If: ifi, Branch: branch})
+			}) {
+				all = false
+			}
+		}
+		if any && all {
+			ensures[fn] = true
+		}
+	}
+	r.Count("cursor_ensuring_helpers", len(ensures))
 	for _, fn := range c.ModuleFuncs() {
 		if fn.Signature.Recv() == nil || !core.IsNamed(fn.Signature.Recv().Type(), core.SlipPath+"/pkg/cl", "control") {
 			continue
@@ -429,6 +454,30 @@ func c15argsAs(c *core.Ctx, r *core.Reporter, rule string) {
 				for f := range g.Facts(b) {
 					if upperGuard(f) {
 						guarded = true
+					}
+				}
+				// or a call of a cursor-ensuring helper earlier in this block, or in a block that dominates it,
+				// with no change of the cursor in between (the helper is called right before the read)
+				if !guarded {
+					for _, bb := range fn.Blocks {
+						if bb != b && !bb.Dominates(b) {
+							continue
+						}
+						for _, in2 := range bb.Instrs {
+							if bb == b && in2 == in {
+								break
+							}
+							if call, ok := in2.(*ssa.Call); ok && ensures[call.Call.StaticCallee()] {
+								guarded = true
+							}
+							if st, ok := in2.(*ssa.Store); ok && guarded {
+								if fa, ok := st.Addr.(*ssa.FieldAddr); ok {
+									if _, f := fieldOwnerNameAny(fa); f == "argPos" {
+										guarded = false // the cursor moved after the helper ran
+									}
+								}
+							}
+						}
 					}
 				}
 				key := core.SSAName(fn) + "|args[argPos]"
@@ -606,4 +655,21 @@ func c15params(c *core.Ctx, r *core.Reporter) {
 		used := params.Referrers() != nil && len(*params.Referrers()) > 0
 		r.Decide(used, rule, core.SSAName(fn), c.Pos(fn.Pos()), fmt.Sprintf("the params argument is read: %v", used))
 	}
+}
+
+// fieldOwnerNameAny: the named struct type (any package) and the field name of a field address.
+func fieldOwnerNameAny(fa *ssa.FieldAddr) (string, string) {
+	t := fa.X.Type()
+	if p, ok := t.Underlying().(*types.Pointer); ok {
+		t = p.Elem()
+	}
+	nt, ok := types.Unalias(t).(*types.Named)
+	if !ok {
+		return "", ""
+	}
+	st, ok := nt.Underlying().(*types.Struct)
+	if !ok || fa.Field >= st.NumFields() {
+		return "", ""
+	}
+	return nt.Obj().Name(), st.Field(fa.Field).Name()
 }
